@@ -272,8 +272,6 @@ def judge(ctx, recs, summ, params, extra_findings, n_sweep):
         if r['status'] in ('unsupported', 'inconclusive'):
             inconclusive.append('%s: %s %s' % (r['status'], r.get('detail'), r.get('where', '')))
     inconclusive = sorted(set(inconclusive))
-    if summ.get('truncated'):
-        inconclusive.append('exploration truncated')
     covers = set()
     for r in recs:
         covers.update(r.get('covers', []))
